@@ -7,6 +7,10 @@ JEncDec(e) ==
   << R("C16", "probe_set_up", TRUE, r.setup /\ r.enc_ok, cls),
      R("C16", "ciphertext_layout", r.setup /\ r.enc_ok, r.plainlen = Len(e["in"]) /\ r.ctlen = 32 + 12 + r.plainlen + 16, cls),
      R("C16", "decrypt_of_encrypt_is_identity", r.setup /\ r.enc_ok, r.dec_ok /\ r.dec_same /\ r.second_same, cls),
+     \* interoperability: what an independent implementation of the layout sealed for the recipient decrypts to the same LeaseSet2
+     R("C16", "independently_sealed_data_decrypts", r.setup /\ r.enc_ok /\ r.dec_ok /\ Len(r.craft) > 0, r.indep_sealed_decrypts, cls),
+     \* plaintext chosen by the peer (bytes after the LeaseSet2): DecryptInnerData on an accepted value returns normally, whatever it decides
+     R("C04", "decrypt_of_peer_chosen_plaintext_returns_normally", r.setup /\ r.enc_ok /\ Len(r.craft) > 0, \A i \in 1..Len(r.craft) : ~r.craft[i].panicked, cls),
      \* a history of calls on ONE value: decrypt, decrypt again, a refused attempt with another key, decrypt again
      R("C16", "decrypt_is_repeatable_on_one_value", r.setup /\ r.enc_ok /\ r.dec_ok /\ r.history_done, r.history_decrypts /\ r.history_reparsed_decrypts, cls),
      R("C16", "decrypt_leaves_value_and_caller_slice_alone", r.setup /\ r.enc_ok /\ r.dec_ok /\ r.history_done, r.history_value_unchanged /\ r.history_caller_slice_unchanged, cls),
